@@ -280,6 +280,46 @@ print r1()
 print r2()
 print x
 """),
+    ("modify_from_list_element_copies_the_value", """
+items: [int...] = [10, 20, 30]
+cur = 0
+pick = fn(i: int) -> int {
+  modify cur = items[i]
+  return cur
+}
+flip = fn() -> int {
+  items.reverse()
+  return items[0]
+}
+print pick(0)
+print flip()
+print cur
+items.push(5)
+print flip()
+print cur
+print pick(2)
+print cur
+"""),
+    ("modify_from_object_field_copies_the_value", """
+class Bx {
+  v: int
+  constructor(self, a: int) {
+    self.v = a
+  }
+}
+b = Bx(5)
+cur = 0
+take = fn() -> int {
+  modify cur = b.v
+  return cur
+}
+print take()
+b.v = 9
+print cur
+print take()
+b.v = 1
+print cur
+"""),
     ("factory_instances_independent", """
 mk = fn() -> [fn() -> int, fn(int) -> int] {
   n = 0
